@@ -213,6 +213,7 @@ package simplefixgo
 //@   requires[C04] @freshconn rdN == 0 && sel(cut, 0) == 0
 //@   safety[C04,C11]
 //@   handover[C04]
+//@   scenario conn_reader
 //@   modifies rdN, rdAt, cut, clock, cancelled(ctxOf(c.cancel))
 //@   forall j int
 //@   forall p int
